@@ -163,6 +163,59 @@ def rule_order(ctx: Ctx) -> RuleResult:
     return rr
 
 
+def rule_sort_failure_keeps_focus(ctx: Ctx) -> RuleResult:
+    """'it keeps designating the same item while that item remains in the list': list.sort() that fails part-way (a
+    comparison raises) leaves the items permuted, exactly as the built-in does.  The focus item is still in the list
+    - at another index.  The re-location of the focus after super().sort() is therefore reached on the exception
+    edge of that call as well (try / finally): every path from the call to the function's raising exit passes a
+    store of self.focus.  Before fix a893120 the exception left the method before the focus was re-located: after a
+    failed sort the focus index designated another item."""
+    p = ctx.p
+    rr = RuleResult("PASS", "C16.15", "MonitoredFocusList.sort re-locates the focus item on the exception edge of the list call too", floor=1)
+    fo = p.cls(f"{ML}.MonitoredFocusList").methods.get("sort")
+    if fo is None:
+        raise AnalysisError("MonitoredFocusList.sort not found")
+    cfg = cfg_of(fo)
+    calls = [c for c in _super_calls(fo) if c.func.attr == "sort"]
+    # the call that works on a non-empty list (the empty-list passthrough has no focus to keep)
+    cn = [n for c in calls for n in nodes_where(cfg, lambda x, c=c: x is c) if n.kind != "return"]
+    stores = nodes_where(cfg, lambda x: isinstance(x, ast.Attribute) and isinstance(x.ctx, ast.Store) and x.attr in ("focus", "_focus") and isinstance(x.value, ast.Name) and x.value.id == fo.self_name)
+    if not cn or not stores:
+        raise AnalysisError("MonitoredFocusList.sort: list call / focus store not found")
+    ok = all(cfg.raise_exit not in cfg.reachable_from_edges([(n, "e")], avoid=stores) for n in cn)
+    rr.inst("sort", True, {"list_call": norm(calls[0], 40), "focus_stores": len(stores), "store_on_exception_edge": ok})
+    if not ok:
+        rr.add(finding("PASS", fo, calls[0], "an exception from super().sort() leaves sort() without the focus being re-located: list.sort() that fails in a comparison has already moved items, the focus index stays and now designates another item although the focus item is still in the list", construct="sort: focus not re-located when the list call raises"))
+    return rr
+
+
+def rule_base_extend_materialises(ctx: Ctx) -> RuleResult:
+    """'raise the same errors, leaving the list unchanged when they do' and 'the modified callback fires ... never for a
+    failed call': list.extend() / += append item by item, so an iterable that raises half way leaves the items taken
+    so far in the list - a failed call that changed the contents and (rightly) announced nothing.  The wrapped
+    mutators of MonitoredList that consume an iterable therefore take all items first: what they hand to super() is
+    list(<parameter>).  (MonitoredFocusList.extend does the same for its focus arithmetic, C16.10.)  Before fix
+    d9ee2f7 a SimpleListWalker extended from a failing generator kept the extra item and the ListBox its old canvas."""
+    p = ctx.p
+    rr = RuleResult("KIND", "C16.14", "MonitoredList.extend / __iadd__ hand list(<iterable>) to the built-in: nothing is appended before the iterable was consumed", floor=2)
+    ml = p.cls(f"{ML}.MonitoredList")
+    for name in ("extend", "__iadd__"):
+        fo = ml.methods.get(name)
+        if fo is None:
+            raise AnalysisError(f"MonitoredList.{name} not found")
+        prm = fo.params[1]
+        calls = [c for c in _super_calls(fo) if c.func.attr == name]
+        if not calls:
+            raise AnalysisError(f"MonitoredList.{name}: no super().{name}() call")
+        for c in calls:
+            a = c.args[0] if c.args else None
+            ok = isinstance(a, ast.Call) and isinstance(a.func, ast.Name) and a.func.id in ("list", "tuple") and len(a.args) == 1 and isinstance(a.args[0], ast.Name) and a.args[0].id == prm
+            rr.inst(f"MonitoredList.{name}", True, {"method": name, "handed_on": ast.unparse(a) if a is not None else None, "materialised": ok})
+            if not ok:
+                rr.add(finding("KIND", fo, c, f"`{norm(c, 50)}` lets the built-in consume the caller's iterable itself: items are appended one by one, an iterable that raises half way leaves them in the list, the call fails and no modified callback is sent - a list walker holds items its ListBox has never been told about", construct=f"MonitoredList.{name}: iterable not materialised before the list call"))
+    return rr
+
+
 def rule_index_passed_as_given(ctx: Ctx) -> RuleResult:
     """'raise the same errors': the built-in list range-checks an integer index (`del l[9]` -> IndexError) and never a
     slice.  The overrides build `slice(i, i + 1 or None)` from an integer index to compute the new focus; that slice
@@ -764,11 +817,14 @@ def rule_replaced_range(ctx: Ctx) -> RuleResult:
 
 
 def run(ctx: Ctx):
-    return [rule_cover(ctx), rule_order(ctx), rule_wrapper(ctx), rule_focus_setter(ctx), rule_slice_triple(ctx), rule_slice_norm(ctx), rule_norm_simultaneous(ctx), rule_index_slice_idiom(ctx), rule_focus_writers(ctx), rule_list_semantics(ctx), rule_index_coercion(ctx), rule_replaced_range(ctx), rule_index_passed_as_given(ctx)]
+    return [rule_cover(ctx), rule_order(ctx), rule_wrapper(ctx), rule_focus_setter(ctx), rule_slice_triple(ctx), rule_slice_norm(ctx), rule_norm_simultaneous(ctx), rule_index_slice_idiom(ctx), rule_focus_writers(ctx), rule_list_semantics(ctx), rule_index_coercion(ctx), rule_replaced_range(ctx), rule_index_passed_as_given(ctx), rule_base_extend_materialises(ctx), rule_sort_failure_keeps_focus(ctx)]
 
 
 _F = "urwid/widget/monitored_list.py"
 MUTANTS = [
+    Mut("sort-failure-leaves-focus", "urwid/widget/monitored_list.py", "MonitoredFocusList.sort", "        try:\n            rval = super().sort(**kwargs)\n        finally:\n            # the focus follows the object itself, not the first item that compares equal to it - also when a\n            # comparison raised after items had been moved\n            self.focus = next(i for i, item in enumerate(self) if item is value)\n", "        rval = super().sort(**kwargs)\n        self.focus = next(i for i, item in enumerate(self) if item is value)\n", "PASS|widget.monitored_list.MonitoredFocusList.sort|sort: focus not re-located when the list call raises"),
+    Mut("base-extend-consumes-lazily", "urwid/widget/monitored_list.py", "MonitoredList.extend", "super().extend(list(__iterable))", "super().extend(__iterable)", "KIND|widget.monitored_list.MonitoredList.extend|MonitoredList.extend: iterable not materialised before the list call"),
+    Mut("twin-base-extend-tuple", "urwid/widget/monitored_list.py", "MonitoredList.extend", "super().extend(list(__iterable))", "super().extend(tuple(__iterable))", twin=True),
     Mut("sort-empty-returns-early", "urwid/widget/monitored_list.py", "MonitoredFocusList.sort", "            # no focus to keep track of; the built-in list still validates the arguments\n            return super().sort(**kwargs)\n", "            return None\n", "ORDER|widget.monitored_list.MonitoredFocusList.sort|sort: path without list call"),
     Mut("sort-empty-drops-arguments", "urwid/widget/monitored_list.py", "MonitoredFocusList.sort", "            return super().sort(**kwargs)\n", "            return super().sort()\n", "ORDER|widget.monitored_list.MonitoredFocusList.sort|sort: arguments not passed through"),
     Mut("focus-clamp-only-for-plain-slices", "urwid/widget/monitored_list.py", "MonitoredFocusList._adjust_focus_on_contents_modified", "        return min(focus, len(self) + num_new_items - num_removed - 1)\n", "        return focus\n", "BOUND|widget.monitored_list.MonitoredFocusList._adjust_focus_on_contents_modified|computed focus returned unclamped"),
